@@ -52,7 +52,8 @@ def has_identical_list_elements(list_: Sequence[list[Any]]) -> bool:
     """
     if not list_:
         return True
-    return all(list_[i] == list_[i - 1] for i in range(1, len(list_)))
+    # same members, in whatever order: a member lists its topics in set order
+    return all(set(list_[i]) == set(list_[i - 1]) for i in range(1, len(list_)))
 
 
 def subscriptions_comparator_key(element: tuple[str, Sized]) -> tuple[int, str]:
